@@ -123,6 +123,12 @@ type Sched struct {
 	finished  chan struct{}
 	exitWG    sync.WaitGroup
 	lowStreak int
+	// forcedFires counts timer fires that happened because nothing else could run
+	forcedFires int
+	// NoForcedTimers: time never passes by itself (scripted harnesses: the crash histories)
+	NoForcedTimers bool
+	quiet     bool // setup phase of a harness: decisions are recorded but not branched on
+	atomic    int // >0: the running thread is inside Atomic (no switches unless it blocks)
 	unbuf     map[uintptr]*slot
 	Trace     []string // optional op trace (only when KeepTrace)
 	KeepTrace bool
@@ -261,6 +267,9 @@ func Yield(op *Op) {
 	if s.aborting {
 		return // only deferred functions of threads being torn down get here
 	}
+	if s.atomic > 0 && (op.Enabled == nil || op.Enabled()) {
+		return // inside an atomic section: keep running
+	}
 	s.Steps++
 	if s.Steps > s.MaxStep {
 		s.Livelock = true
@@ -349,13 +358,27 @@ func (s *Sched) pick(cur *Thread) *Thread {
 				opts = append(opts, t)
 			}
 		}
+		// Timers: while some ordinary thread can run, a ticker may fire early only within its budget (a
+		// deviation). When NO ordinary thread can run, time simply passes: any ticker may fire (the
+		// shortest first by default), bounded by forcedFires so that a real deadlock is still detected.
+		forced := len(opts) == 0
 		var timers []*Ticker
 		for _, k := range s.tickers {
-			if !k.stopped && s.TimerBudget[k.D] > 0 && len(k.C) == 0 {
+			if !k.stopped && len(k.C) == 0 && (s.TimerBudget[k.D] > 0 || (forced && s.forcedFires < 30 && !s.NoForcedTimers)) {
 				timers = append(timers, k)
 			}
 		}
 		sort.SliceStable(timers, func(i, j int) bool { return timers[i].D < timers[j].D })
+		// a thread waiting in Quiesce runs as soon as no ordinary thread can run, BEFORE any timer fires
+		// by itself (scripted harnesses decide themselves when time passes)
+		if len(opts) == 0 {
+			for _, t := range lows {
+				if t.op.Kind == "quiesce" {
+					s.lowStreak = 0
+					return t
+				}
+			}
+		}
 		nopt := len(opts) + len(timers)
 		if nopt == 0 {
 			if len(lows) == 0 {
@@ -366,8 +389,6 @@ func (s *Sched) pick(cur *Thread) *Thread {
 				s.Livelock = true
 				return nil
 			}
-			// sleepers: rotate deterministically, quiesce waiters first
-			sort.SliceStable(lows, func(i, j int) bool { return lows[i].op.Kind == "quiesce" && lows[j].op.Kind != "quiesce" })
 			return lows[0]
 		}
 		s.lowStreak = 0
@@ -405,7 +426,11 @@ func (s *Sched) pick(cur *Thread) *Thread {
 			return opts[choice]
 		}
 		k := timers[choice-len(opts)]
-		s.TimerBudget[k.D]--
+		if forced {
+			s.forcedFires++
+		} else {
+			s.TimerBudget[k.D]--
+		}
 		k.C <- Now()
 		if s.KeepTrace {
 			s.Trace = append(s.Trace, "timer:"+k.D.String())
@@ -419,6 +444,9 @@ func (s *Sched) pick(cur *Thread) *Thread {
 // a shared (or anonymous) object: preempting before an op on a thread-private object is equivalent
 // to preempting before that thread's next shared op.
 func (s *Sched) choiceWorthy(cur *Thread, opts []*Thread) bool {
+	if s.quiet {
+		return false
+	}
 	if cur == nil || len(opts) == 0 || opts[0] != cur {
 		return true
 	}
@@ -503,6 +531,25 @@ func Join(ts ...*Thread) {
 // Quiesce blocks until no other thread can run (and no timer will fire by itself).
 func Quiesce() {
 	Yield(&Op{Kind: "quiesce", Low: true})
+}
+
+// Atomic runs fn without scheduling points (the harness's observation of "the state at this instant").
+// If fn blocks on something another thread holds, scheduling resumes normally.
+func Atomic(fn func()) {
+	if S == nil {
+		fn()
+		return
+	}
+	S.atomic++
+	defer func() { S.atomic-- }()
+	fn()
+}
+
+// Branching switches exploration of alternatives off (setup phase of a harness) and on again.
+func Branching(on bool) {
+	if S != nil {
+		S.quiet = !on
+	}
 }
 
 // Point is a plain scheduling point (access to a package-level variable).
